@@ -128,7 +128,8 @@ def check_set(core, parser, v, ec, rec):
         # a leaf holding the set's own delimiters (assigned through a datatype object, so nothing is split): they must
         # come out escaped with THIS set, whatever sets were used before in the process
         lib = tables.lib(v)
-        raw = 'q' + ec['FIELD'] + ec['COMPONENT'] + 'r'
+        raw = 'q' + ec['FIELD'] + ec['COMPONENT'] + 'r' + ec['SUBCOMPONENT'] + 's' + ec['REPETITION'] + ec['ESCAPE'] + 't' + \
+            ec.get('TRUNCATION', '') + 'u'
         esc = er7ref.ref_escape(raw, ec, er7ref.letters_for(v))
         z = m.add_segment('ZZ9') if False else core.Segment('ZZ9', version=v)
         m.add(z)
@@ -303,6 +304,35 @@ def check_set(core, parser, v, ec, rec):
                                    'msh': m4.to_er7()[:12], 'reparsed': back.encoding_chars.get('TRUNCATION')})
         except Exception as e:
             rec.violation('raised:%s:assign-other-truncation' % type(e).__name__, case, {'exc': repr(e)[:200]})
+    # ---- a text declaring the same characters in other roles (two of them exchanged), assigned to the built message:
+    # refused, or else the message consistently becomes what the text declares - never a mixture
+    from hl7apy.exceptions import OperationNotAllowed as _ONA
+    for a, b in (('COMPONENT', 'REPETITION'), ('SUBCOMPONENT', 'ESCAPE'), ('COMPONENT', 'SUBCOMPONENT'),
+                 ('REPETITION', 'ESCAPE')):
+        perm = dict(ec)
+        perm[a], perm[b] = perm[b], perm[a]
+        rec.evaluation((v, ec_tuple(ec), 'assign-permuted-roles', a, b))
+        try:
+            m5 = core.Message('ADT_A01', version=v, encoding_chars=dict(exp))
+            before = m5.to_er7()
+            t5 = structref.msh_line(v, 'ADT_A01', perm) + '\r' + seg + perm['FIELD'] * row.num + field_text(perm, crow, subs)
+            try:
+                m5.value = t5
+            except _ONA:
+                rec.count('permuted_roles_refused')
+                if m5.encoding_chars != exp:
+                    rec.violation('refused-text-with-permuted-roles-changed-the-set', case,
+                                  {'exchanged': [a, b], 'getter': ec_tuple(m5.encoding_chars)})
+            else:
+                rec.count('permuted_roles_accepted')
+                want = gen.full_ec(perm)
+                back = parser.parse_message(m5.to_er7())
+                if m5.encoding_chars != want or m5.to_er7() != t5 or back.to_er7() != t5 or back.encoding_chars != want:
+                    rec.violation('assigned-text-with-permuted-roles-leaves-an-inconsistent-message', case,
+                                  {'exchanged': [a, b], 'assigned': t5[-60:], 'encoded': m5.to_er7()[-60:],
+                                   'getter': ec_tuple(m5.encoding_chars)})
+        except Exception as e:
+            rec.violation('raised:%s:assign-permuted-roles' % type(e).__name__, case, {'exc': repr(e)[:200]})
 
 
 def run_sets(spec, rec):
